@@ -80,6 +80,19 @@ def cases(draw, name):
     if not info.structure_factor:
         pars["scale"] = S.sig(draw(st.floats(0.1, 5)), 4)
         pars["background"] = draw(st.sampled_from([0.0, 0.01, 0.5]))
+    ctl = [p for p in info.parameters.kernel_parameters if p.is_control]
+    if ctl and draw(st.integers(0, 3)) > 0:
+        # multiplicity models: the SasView-style object hides the parameters beyond the multiplicity at their
+        # defaults, so three cases in four leave them there (the comparison with that object needs it); the lowest
+        # multiplicity (0 shells: everything hidden) is drawn on purpose
+        if draw(st.integers(0, 3)) == 0:
+            pars[ctl[0].name] = float(ctl[0].limits[0])
+        defaults = info.parameters.defaults
+        for k in info.get_hidden_parameters(int(pars.get(ctl[0].name, ctl[0].default))):
+            if k in pars:
+                pars[k] = defaults[k]
+        pd = {k: v for k, v in pd.items() if not any(k.startswith(h + "_pd") for h in
+                                                    info.get_hidden_parameters(int(pars.get(ctl[0].name, ctl[0].default))))}
     case = {"model": name, "kind": kind, "pars": pars, "pd": pd}
     n = draw(st.integers(3, 10))
     if dim == "1d":
